@@ -17,7 +17,7 @@ pub fn run(ctx: &Ctx) -> Report {
         Plan { fam: "FENCE", styles: plain.clone(), debug: both.clone(), stride: 1 },
         Plan { fam: "LAB", styles: plain.clone(), debug: both.clone(), stride: 1 },
     ];
-    plans.push(Plan { fam: "S3", styles: plain.clone(), debug: vec![true], stride: ctx.pick(7, 1) });
+    plans.push(Plan { fam: "S3", styles: if ctx.thorough() { two.clone() } else { plain.clone() }, debug: if ctx.thorough() { both.clone() } else { vec![true] }, stride: ctx.pick(7, 1) });
     run_plans(ctx, &mut rep, "C01", &plans, &|i| i.wellformed && i.accepted && i.image_words > 0);
     rep.bound("sequence_length", Json::s(ctx.pick("<=2 complete, 3 every 7th index", "<=3 complete")));
     rep.require(rep.acc.get("accepted") > 10_000 && rep.acc.outcomes.len() > 1000, "many distinct images were produced and compared");
